@@ -314,7 +314,8 @@ fn central_moment_coefficients<A>(moments: &[A]) -> Vec<A>
 where
     A: Float + FromPrimitive,
 {
-    let order = moments.len();
+    // `moments` holds the moments of order `0..=order`
+    let order = moments.len() - 1;
     IterBinomial::new(order)
         .zip(moments.iter().rev())
         .map(|(binom, &moment)| A::from_usize(binom).unwrap() * moment)
